@@ -1,0 +1,29 @@
+//go:build verif
+
+// Package verifhook provides named points used by the external verification
+// harness: with the "verif" build tag a handler can be installed that records,
+// delays, blocks or exits at a named point.
+package verifhook
+
+import "sync/atomic"
+
+// Handler is called at every Point when installed.
+type Handler func(name string, id uint32)
+
+var handler atomic.Value // of Handler
+
+// Set installs (or, with nil, removes) the handler.
+func Set(h Handler) {
+	if h == nil {
+		handler.Store(Handler(func(string, uint32) {}))
+		return
+	}
+	handler.Store(h)
+}
+
+// Point calls the installed handler, if any.
+func Point(name string, id uint32) {
+	if h, ok := handler.Load().(Handler); ok && h != nil {
+		h(name, id)
+	}
+}
